@@ -96,6 +96,39 @@ def mode_seqs(cases):
     return out
 
 
+NOT_ELEMENTS_DESCEND = {"Figure"}      # _figure rewrites its image before converting it
+
+
+def child_elements(node, known):
+    def rec(x):
+        if isinstance(x, dict):
+            if x.get("t") in known:
+                yield x
+            else:
+                for v in x.values():
+                    yield from rec(v)
+        elif isinstance(x, list):
+            for v in x:
+                yield from rec(v)
+    yield from rec(node.get("c"))
+
+
+def culprits(node, known):
+    """innermost elements that fail to convert on their own (fresh Markdown instance each)"""
+    from skops.card._markup import Markdown
+    res = []
+    if node["t"] not in NOT_ELEMENTS_DESCEND:
+        for c in child_elements(node, known):
+            res += culprits(c, known)
+    if res:
+        return res
+    try:
+        Markdown()(copy.deepcopy(node))
+        return []
+    except Exception as e:  # noqa: BLE001
+        return [{"t": node["t"], "error": exc_enum(e), "node": node}]
+
+
 def mode_oracle(cases):
     """Raw observations for the property oracle in props/c15.py (no model involved):
     per document: the title-path outline, contents by path, the strings yielded by
@@ -127,6 +160,9 @@ def mode_oracle(cases):
                     one[name] = {"error": exc_enum(e)}
             texts.append(one)
         obs["texts"] = texts
+        known = set(Markdown().mapping) | {"HorizontalRule", "Null", "LineBlock", "DefinitionList", "Underline", "SmallCaps",
+                                           "Superscript", "Subscript", "Span", "Math", "Note", "Cite"}
+        obs["culprits"] = [c for b, t in zip(blocks, texts) if isinstance(t["fresh"], dict) for c in culprits(b, known)]
         obs["used_trace"] = list(used._indent_trace)
         if card is not None:
             obs["sections"] = [[list(tp), sec.content] for _, tp, sec in walk(card._data)]
